@@ -16,8 +16,14 @@ fn off(base: &str, sub: &str) -> u64 {
     base[..b].chars().count() as u64
 }
 
+/// Every iterator of the parser must end: none can yield more items than its input has bytes (each item consumes
+/// at least one).  The loops are capped there; reaching the cap is reported as 3, which no terminating run prints.
 fn parse_doc(out: &mut Vec<u64>, input: &str) {
+    let cap = input.len() + 2;
+    let mut n_items = 0usize;
     for item in LinkFormatParser::new(input) {
+        n_items += 1;
+        if n_items > cap { out.push(3); return; }
         match item {
             Err(_) => out.push(1),
             Ok((link, attrs)) => {
@@ -25,13 +31,16 @@ fn parse_doc(out: &mut Vec<u64>, input: &str) {
                 out.push(off(input, link)); wr_str(out, link);
                 let inner: &str = attrs.verif_inner();
                 out.push(off(input, inner)); wr_str(out, inner);
-                let items: Vec<_> = attrs.collect();
+                let items: Vec<_> = attrs.take(inner.len() + 2).collect();
+                if items.len() > inner.len() + 1 { out.push(3); return; }
                 out.push(items.len() as u64);
                 for (k, v) in items {
                     out.push(off(input, k)); wr_str(out, k);
                     let raw = v.clone().into_raw_str();
                     out.push(off(input, raw));
                     wr_str(out, raw);
+                    let chars: String = v.clone().take(raw.len() + 2).collect();
+                    if chars.chars().count() > raw.len() + 1 { out.push(3); return; }
                     wr_str(out, &v.to_string());
                     match catch_unwind(AssertUnwindSafe(|| v.to_cow().into_owned())) {
                         Ok(s) => { out.push(0); wr_str(out, &s); }
